@@ -1,4 +1,5 @@
 import DyntplV.Refine.Term
+import DyntplV.Refine.TermIncl
 import DyntplV.Refine.Fuel
 import DyntplV.Props.C14
 
@@ -11,9 +12,12 @@ alone** (`treeNeed`, the nesting measure): any two fuels of at least that much g
 data (lists of any length), the writer (any fault position) and the context. A rendering in that fragment therefore
 has a value that no fuel constant can change: it terminates.
 
-Outside the theorem, on purpose: a counter loop runs as long as its bounds say (`C03N.trips`; `i != n` stepping away
-from `n` runs 2⁶⁴ times before the counter wraps, which the property does not forbid and the watchdog sees), and an
-include chain is cut by the include limit (`C16`), not by the shape of one tree.
+Includes are put back by `Refine/TermIncl.lean`: whatever the include graph — a template may include itself — the include
+limit cuts every chain, and a fuel computed from the tree, the registry and the limit suffices
+(`render_with_includes_never_out_of_fuel`).
+
+Outside the theorems, on purpose: a counter loop runs as long as its bounds say (`C03N.trips`; `i != n` stepping away
+from `n` runs 2⁶⁴ times before the counter wraps, which the property does not forbid and the watchdog sees).
 -/
 
 namespace DyntplV.C13
@@ -102,6 +106,49 @@ theorem driver_fuel_sound (reg : Registry) (key : Bytes) (nodes : List Node) (s 
 /-- The measure is linear in the size of the tree: it never exceeds twice the number of nodes plus list ends of the
     tree, doubled once per switch — here the simple fact used by the harness: a list needs more than each member. -/
 theorem need_member (l : List Node) (n : Node) (h : n ∈ l) : needNode n < needSeq l := need_mem l n h
+
+/-! ### With includes -/
+
+open DyntplV.TermIncl
+
+/-- Fuel that suffices for a template of a registry whose templates need at most `R` each: the include limit times `R`
+    on top of the template's own need. -/
+def treeNeedIncl (R : Nat) (nodes : List Node) : Nat := needSeq nodes + 1 + maxIncDepth * R
+
+/-- **`Write(w, key, ctx)` never runs out of fuel when no template of the registry contains a counter loop** — whatever
+    the include graph (self-includes and cycles are cut by the include limit), the data, the writer and the depth the
+    context starts at. -/
+theorem render_with_includes_never_out_of_fuel (reg : Registry) (key : Bytes) (nodes : List Node) (s : St) (f : Nat)
+    (hreg : regLF reg = true) (hl : reg.lookup key = some nodes) (hf : treeNeedIncl (regNeed reg) nodes ≤ f)
+    (hs : s.c.err ≠ some .outOfFuel) :
+    (writeKey reg f key s).err ≠ some .outOfFuel ∧ (writeKey reg f key s).st.c.err ≠ some .outOfFuel ∧
+      (writeKey reg f key s).st.c.incD = s.c.incD := by
+  unfold writeKey
+  simp only [hl]
+  unfold write writeBody
+  have hp := (lookup_bound reg key nodes hl hreg).1
+  have h := (interp_incl reg (regNeed reg) (regOK_of_lf reg hreg) f).1 maxIncDepth s.c.incD nodes s.topStart hp
+    (by omega) (by unfold treeNeedIncl at hf; omega) ⟨hs, rfl⟩
+  unfold Res.andThen
+  split
+  · exact h
+  · exact ⟨by simp [ok], by simpa [ok, Ctx.runDeferred, Clean.OK] using h.2.1, by simpa [ok, Ctx.runDeferred] using h.2.2⟩
+
+/-- The include depth is restored by the rendering (here for the fragment; it is what bounds the chains). -/
+theorem render_restores_include_depth (reg : Registry) (key : Bytes) (nodes : List Node) (s : St) (f : Nat)
+    (hreg : regLF reg = true) (hl : reg.lookup key = some nodes) (hf : treeNeedIncl (regNeed reg) nodes ≤ f)
+    (hs : s.c.err ≠ some .outOfFuel) : (writeKey reg f key s).st.c.incD = s.c.incD :=
+  (render_with_includes_never_out_of_fuel reg key nodes s f hreg hl hf hs).2.2
+
+/-! Non-vacuity: a template that includes ITSELF (after a text) and one that includes it. The bound of that registry is
+    computed; the self-include ends with the include-depth error, not with `outOfFuel`. -/
+def regSelf : Registry := [(lit "self", [.raw (lit "x"), .incl [lit "self"]]), (lit "host", [.raw (lit "["), .incl [lit "self"], .raw (lit "]")])]
+
+example : regLF regSelf = true := by decide
+example : regNeed regSelf = 5 := by decide
+example : treeNeedIncl (regNeed regSelf) [.raw (lit "["), .incl [lit "self"], .raw (lit "]")] = 645 := by decide
+example : (writeKey regSelf 645 (lit "host") { c := {}, w := {} }).err ≠ some .outOfFuel :=
+  (render_with_includes_never_out_of_fuel regSelf (lit "host") _ { c := {}, w := {} } 645 (by decide) rfl (by decide) (by decide)).1
 
 /-! Non-vacuity: the three-level nest of C14 (range loops, `break 2`) is in the fragment, its bound is 11, and the
     run with the differential harness's fuel (1200) is, by the theorem, the run with fuel 11. -/
